@@ -49,6 +49,7 @@ class TS(object):
     self.deadline = None
     self.timed_out = False
     self.pending_exc = None
+    self.pending_call = None
     self.steps = 0
 
 
@@ -76,7 +77,8 @@ class Sched(object):
     return getattr(self.tls, 'ts', None)
 
   def _runnable(self):
-    return [t for t in self.threads if t.started and not t.finished and (t.wake is None or t.wake())]
+    return [t for t in self.threads if t.started and not t.finished and
+            (t.wake is None or t.pending_call is not None or t.wake())]
 
   def _switch(self, me):
     if self.failed is not None and me is not None and not me.finished:
@@ -124,7 +126,20 @@ class Sched(object):
     me.steps += 1
     self.trace.append((me.name, what))
     self._switch(me)
+    self._run_pending_call(me)
     self._deliver(me)
+
+  def interrupt(self, ts, fn):
+    """simulates a signal handler: fn() runs in thread ts the next time it is scheduled, also when it is
+    blocked in a wait (the wait is interrupted, and resumed if fn returns normally)"""
+    ts.pending_call = fn
+
+  def _run_pending_call(self, me):
+    if me.pending_call is not None:
+      fn = me.pending_call
+      me.pending_call = None
+      self.events.append((me.name, 'signal-handler', None, None))
+      fn()
 
   def _deliver(self, me):
     if me.pending_exc is not None:
@@ -146,17 +161,28 @@ class Sched(object):
         _time.sleep(0.001)
       return True
     me.steps += 1
-    me.wake = wake
-    me.timed_out = False
-    me.deadline = None if timeout is None else self.now + max(0, timeout)
-    self.trace.append((me.name, ('block', what)))
-    try:
-      self._switch(me)
-    finally:
-      ok = not me.timed_out
-      me.wake = None
-      me.deadline = None
+    deadline = None if timeout is None else self.now + max(0, timeout)
+    while True:
+      me.wake = wake
       me.timed_out = False
+      me.deadline = deadline
+      self.trace.append((me.name, ('block', what)))
+      try:
+        self._switch(me)
+      finally:
+        ok = not me.timed_out
+        me.wake = None
+        me.deadline = None
+        me.timed_out = False
+      if me.pending_call is not None:
+        # a simulated signal handler interrupts the wait; if it returns normally the wait resumes
+        self._run_pending_call(me)
+        if ok and wake():
+          break
+        if not ok:
+          break
+        continue
+      break
     self._deliver(me)
     return ok
 
